@@ -545,6 +545,12 @@ def gen_recipe(rng, mode):
         nops = rng.choice([1, 1, 2])
         gap = rng.choice([0, 1, 2])
         wsm = (gap + 0.0) / tps if gap else 0.0
+    long_wait = (not many) and rng.random() < 0.06
+    if long_wait:
+        # minutes of mean wait at the finest tick rates: tens of millions of ticks (only the first event fits the run)
+        tps = rng.choice([10 ** 4, 10 ** 5, 10 ** 5])
+        wsm = float(rng.choice([150, 180, 600, 3600]))
+        gap = 0
     per_event = np_ * (2 + nops) + 1
     n_events = max(2, min(40, int(450 // per_event)))
     if many:
